@@ -16,6 +16,9 @@ RULE = ('exhaustive: all vertex lists of length 0..4 over the 3x2 integer grid x
         'tolerances incl. 0, negatives and exact boundary values; float stream (random doubles, near-collinear runs) and '
         'large-magnitude float stream (chord/tolerance up to 1e12, translations up to 1e12*tol, sharp reversals overshooting '
         'either chord end by about the tolerance), judged against exact Fractions of the float inputs. '
+        'every 3rd exact / 4th float case also runs three two-call sequences on ONE list object (reference->predicate, '
+        'reference->supersample, predicate->reference), each call judged against the list as it was before the sequence; '
+        'every call into the code under test gets its own fresh list, compared with a snapshot afterwards. '
         'non-trivial = at least one predicate evaluation; distinct by (vertex list, tolerance)')
 TRUSTED = ['harness oracle dist2() (clamped projection in exact Fractions, independent of the three-region code)',
            'modelled not verified: Python list slicing / slice deletion semantics as List.take/drop',
@@ -185,6 +188,131 @@ def _ss_call(ctx, pu, objs, work, tol, margin, inp):
     return idx
 
 
+class Impl:
+    """Every call into the code under test goes through here: the function gets its OWN fresh list of fresh vertex
+    objects (so nothing it does to its argument can reach the harness' data), exceptions propagate to the caller's
+    `except`, and the list is compared with a snapshot afterwards — `points_in_tolerance` and
+    `max_dist_from_n_points` are documented as not mutating their argument (the models are pure functions)."""
+
+    def __init__(self, ctx, pu):
+        self.ctx, self.pu, self.reported = ctx, pu, {}
+
+    def _call(self, name, fn, pts, inp, *args):
+        work = [Vtx(p) for p in pts]
+        snap = list(work)
+        try:
+            return fn(work, *args)
+        finally:
+            if list_changed(snap, work) and self.reported.get(name, 0) < 5:
+                self.reported[name] = self.reported.get(name, 0) + 1
+                self.ctx.disagree(f"{name} changed the caller's list", dict(inp, fn=name),
+                                  f'{len(work)} items left: {[tuple(str(c) for c in w) for w in work][:6]}', 'argument unchanged (pure function)')
+
+    def pit(self, pts, tol, inp):
+        return self._call('points_in_tolerance', self.pu.points_in_tolerance, pts, inp, tol)
+
+    def ref(self, pts, inp):
+        return self._call('max_dist_from_n_points', self.pu.max_dist_from_n_points, pts, inp)
+
+
+def get_impl(ctx, pu):
+    if getattr(ctx, '_c09_impl', None) is None:
+        ctx._c09_impl = Impl(ctx, pu)
+    return ctx._c09_impl
+
+
+def list_changed(snap, work):
+    try:
+        return len(snap) != len(work) or any(a is not b for a, b in zip(snap, work))
+    except Exception:
+        return True
+
+
+def sequences(ctx, pu, pts, tol, band, tag):
+    """two calls on the SAME list object, each judged against the statement on the list as it was BEFORE the
+    sequence: reference -> predicate, reference -> supersample, predicate -> reference"""
+    fs = lambda c: str(c) if isinstance(c, F) else repr(c)
+    base = {'stream': tag, 'vertices': [[fs(c) for c in p] for p in pts], 'tolerance': fs(tol)}
+    ex = [(F(p[0]), F(p[1])) for p in pts]
+    d2 = max(dist2(q, ex[0], ex[-1]) for q in ex[1:-1])
+    exact = math.sqrt(d2)
+    lo, hi = (F(tol) * (1 - F(band))) ** 2, (F(tol) * (1 + F(band))) ** 2
+    near = not (d2 < lo or not d2 < hi)
+    rb = max(band, REL)
+    refband = max(rb * float(tol), REL * max(1.0, exact), 4 * rb * exact)
+
+    def fresh():
+        objs = [Vtx(p) for p in pts]
+        return objs, list(objs)
+
+    def left(work):
+        try:
+            return f'{len(work)} items: {[tuple(fs(c) for c in w) for w in work][:8]}'
+        except Exception as e:
+            return f'unprintable ({e!r})'
+
+    def judge_pred(pr, ref, inp, who):
+        bad = (pr and not d2 < hi) or (not pr and d2 < lo)
+        if bad:
+            ctx.violate(f'{who}: points_in_tolerance disagrees with the maximum distance of the list', inp, str(pr),
+                        f'{d2 < F(tol) ** 2} (exact maximum distance {exact!r} vs tolerance {fs(tol)})')
+        elif ref is not None and not near and abs(ref - float(tol)) > rb * max(float(tol), ref) and bool(pr) != (ref < tol):
+            ctx.violate(f'{who}: points_in_tolerance disagrees with max_dist_from_n_points', inp, str(pr),
+                        f'{ref < tol} (reference maximum {ref!r} vs tolerance {fs(tol)})')
+
+    def judge_ref(ref, inp, who):
+        if not (isinstance(ref, (int, float)) and abs(ref - exact) <= refband):
+            ctx.violate(f'{who}: max_dist_from_n_points is not the maximum distance of the list', inp, repr(ref), f'{exact!r}')
+
+    # ---- A: reference, then predicate
+    inp = dict(base, fn='points_in_tolerance', sequence='ref = max_dist_from_n_points(v); points_in_tolerance(v, tol)  [same list v]')
+    objs, work = fresh()
+    try:
+        ref = pu.max_dist_from_n_points(work)
+    except Exception as e:
+        ctx.violate('max_dist_from_n_points raised ' + type(e).__name__, inp, repr(e), 'a value')
+        ref = None
+    if ref is not None:
+        ch = list_changed(objs, work)
+        if ch:
+            ctx.disagree("max_dist_from_n_points changed the caller's list", inp, left(work), 'argument unchanged')
+        judge_ref(ref, inp, 'reference')
+        try:
+            pr = pu.points_in_tolerance(work, tol)
+        except Exception as e:
+            ctx.violate('reference then predicate on the same list: points_in_tolerance raised ' + type(e).__name__, inp,
+                        f'{e!r}; list after the reference call: {left(work)}', f'{d2 < F(tol) ** 2}')
+        else:
+            judge_pred(pr, ref, inp, 'reference then predicate on the same list')
+    # ---- B: reference, then supersample (result judged against the list as it was before the sequence)
+    inp = dict(base, fn='supersample', sequence='max_dist_from_n_points(v); supersample(v, tol)  [same list v]')
+    objs, work = fresh()
+    try:
+        pu.max_dist_from_n_points(work)
+    except Exception:
+        pass                                   # reported under A
+    else:
+        _ss_call(ctx, pu, objs, work, tol, band, inp)
+    # ---- C: predicate, then reference
+    inp = dict(base, fn='max_dist_from_n_points', sequence='points_in_tolerance(v, tol); ref = max_dist_from_n_points(v)  [same list v]')
+    objs, work = fresh()
+    try:
+        pr = pu.points_in_tolerance(work, tol)
+    except Exception as e:
+        ctx.violate('points_in_tolerance raised ' + type(e).__name__, inp, repr(e), 'a value')
+        return
+    if list_changed(objs, work):
+        ctx.disagree("points_in_tolerance changed the caller's list", inp, left(work), 'argument unchanged')
+    try:
+        ref = pu.max_dist_from_n_points(work)
+    except Exception as e:
+        ctx.violate('predicate then reference on the same list: max_dist_from_n_points raised ' + type(e).__name__, inp,
+                    f'{e!r}; list after the predicate call: {left(work)}', f'{exact!r}')
+        return
+    judge_ref(ref, inp, 'predicate then reference on the same list')
+    judge_pred(pr, ref, inp, 'predicate then reference on the same list')
+
+
 def bbox_diag(pts):
     xs = [p[0] for p in pts]
     ys = [p[1] for p in pts]
@@ -206,9 +334,10 @@ def float_case(ctx, pu, pts, tol, fstats, path='float'):
     ctx.count(key, path, True)
     inp = {'fn': 'points_in_tolerance', 'stream': 'float', 'vertices': [[repr(a), repr(b)] for a, b in pts], 'tolerance': repr(tol)}
     band = float_band(pts, tol)
+    impl = get_impl(ctx, pu)
     try:
-        pr = pu.points_in_tolerance(pts, tol)
-        ref = pu.max_dist_from_n_points(pts)
+        pr = impl.pit(pts, tol, inp)
+        ref = impl.ref(pts, inp)
     except Exception as ex:
         ctx.violate('points_in_tolerance / max_dist_from_n_points raised ' + type(ex).__name__, inp, repr(ex), 'a value')
         return
@@ -232,6 +361,9 @@ def float_case(ctx, pu, pts, tol, fstats, path='float'):
         fstats['worst'] = max(fstats['worst'], abs(ref - exact) / max(exact, tol))
         fstats['worst_uD'] = max(fstats['worst_uD'], abs(ref - exact) / (U53 * bbox_diag(pts)) if bbox_diag(pts) > 0 else 0.0)
     check_supersample(ctx, pu, pts, tol, band, 'float')
+    fstats['n'] = fstats.get('n', 0) + 1
+    if fstats['n'] % 4 == 1 and not ctx.violations:
+        sequences(ctx, pu, pts, tol, band, 'float')
 
 
 def gen_float_large(rng):
@@ -282,8 +414,10 @@ def run(ctx):
         ([(F(0), F(0)), (F(1), F(1)), (F(0), F(0))], F(2)),          # zero-length chord
         ([(F(0), F(0)), (F(1), F(0)), (F(2), F(0)), (F(3), F(0)), (F(0), F(0))], F(1, 2)),
         ([(F(0), F(0)), (F(1), F(0)), (F(2), F(0)), (F(3), F(0))], F(1, 100)),   # run reaches the end of the list
+        ([(F(0), F(0)), (F(2), F(3, 4)), (F(5), F(-3, 4)), (F(8), F(3, 4)), (F(10), F(0))], F(1)),   # measured, then reduced
     ]
     replay_float = []
+    n_replay = 0
     if getattr(ctx, 'replay', None):
         try:
             rp = json.load(open(ctx.replay))
@@ -291,6 +425,7 @@ def run(ctx):
                 i = v.get('input', {})
                 if i.get('stream') == 'exact' and 'vertices' in i:
                     cases.insert(0, ([(F(a), F(b)) for a, b in i['vertices']], F(i['tolerance'])))
+                    n_replay += 1
                 elif i.get('stream') == 'float' and 'vertices' in i and len(i['vertices']) >= 3:
                     replay_float.append(([(float(a), float(b)) for a, b in i['vertices']], float(i['tolerance'])))
         except Exception as ex:  # a replay file of another shape: ignore
@@ -305,6 +440,7 @@ def run(ctx):
         lines.append(f'c09 maxd {flat}'.rstrip())
     outs = ctx.driver.batch(lines) if ctx.driver else [None] * len(lines)
     neg_pred_logged = 0
+    impl = get_impl(ctx, pu)
     for ci, (pts, tol) in enumerate(cases):
         m_ss, m_pit, m_maxd = outs[3 * ci: 3 * ci + 3]
         n = len(pts)
@@ -324,7 +460,7 @@ def run(ctx):
         # ---- predicate and reference
         inp = {'fn': 'points_in_tolerance', 'stream': 'exact', 'vertices': [[str(a), str(b)] for a, b in pts], 'tolerance': str(tol)}
         if n < 3:
-            for fn, m in ((lambda: pu.points_in_tolerance(pts, tol), m_pit), (lambda: pu.max_dist_from_n_points(pts), m_maxd)):
+            for fn, m in ((lambda: impl.pit(pts, tol, inp), m_pit), (lambda: impl.ref(pts, inp), m_maxd)):
                 try:
                     r = fn(); got = 'value'
                 except AssertionError:
@@ -335,11 +471,13 @@ def run(ctx):
                     ctx.disagree('short input', inp, got, m)
             continue
         try:
-            pr = pu.points_in_tolerance(pts, tol)
-            ref = pu.max_dist_from_n_points(pts)
+            pr = impl.pit(pts, tol, inp)
+            ref = impl.ref(pts, inp)
         except Exception as ex:
             ctx.violate('points_in_tolerance / max_dist_from_n_points raised ' + type(ex).__name__, inp, repr(ex), 'a value')
             continue
+        if tol > 0 and (ci % 3 == 0 or ci < n_replay or ci >= len(cases) - 12) and not ctx.violations:
+            sequences(ctx, pu, pts, tol, 0, 'exact')
         d2s = [dist2(p, pts[0], pts[-1]) for p in pts[1:-1]]
         mx = max(d2s)
         worst = pts[1:-1][d2s.index(mx)]
@@ -374,6 +512,7 @@ def run(ctx):
         pts, tol = gen_float_large(rng)
         float_case(ctx, pu, pts, tol, fstats, 'float:large')
     for pts, tol in replay_float:
+        fstats['n'] = 0                      # replayed cases always run the same-list sequences
         float_case(ctx, pu, pts, tol, fstats)
     for _ in range(ctx.n(10000)):
         n = rng.randint(3, 12)
@@ -481,13 +620,14 @@ def gen_stream(ctx, pu, cases):
         lines.append(f"gen points_in_tolerance {dps} {_gpts(pts)} {_gv(tol)}")
         lines.append(f"gen supersample {dps} {2 * len(pts) + 5} {_gpts(pts)} {_gv(tol)}")
     outs = ctx.driver.batch(lines)
+    gimpl = get_impl(ctx, pu)
     n = {'exact': 0, 'ieee': 0}
     bad = {'exact': 0, 'ieee': 0}
     bad_ss = {'exact': 0, 'ieee': 0}
     for k, (kind, pts, tol) in enumerate(jobs):
         g, g_ss = outs[2 * k], outs[2 * k + 1]
         try:
-            r = pu.points_in_tolerance(pts, tol)
+            r = gimpl.pit(pts, tol, {'gen': kind})
             want = 'True' if r is True else 'False' if r is False else repr(r)
         except AssertionError:
             want = 'ERR'
